@@ -10,6 +10,7 @@ CONSTANTS
   Clusters = {"c1"}
   Override <- MC_Override
   OverrideC2 = 1
+  OvrValues = {}
   Limits = {0}
   EvictOn = TRUE
   QT = 1
